@@ -65,7 +65,7 @@ MetaRowCases == { "row-key-without-any-comma", "row-key-with-one-comma", "row-ke
                   "zero-cell-row", "more-partial-flags-than-results", "unsolicited-scan-metrics" }
 ClientCases ==
        {[api |-> a, target |-> "scan", case |-> c] : a \in {"scan", "scan-partial"}, c \in ScanConsumerCases}
-  \cup {[api |-> a, target |-> "meta", case |-> c] : a \in {"get", "scan", "batch"}, c \in MetaRowCases}
+  \cup {[api |-> a, target |-> "meta", case |-> c] : a \in {"get", "scan", "batch", "cacheregions"}, c \in MetaRowCases}
   \cup {[api |-> "increment", target |-> "increment", case |-> c] : c \in {"value-shorter-than-8-bytes", "no-cells", "no-result", "empty-value"}}
   \cup {[api |-> "checkandput", target |-> "checkandput", case |-> "no-processed-flag"],
         [api |-> "get", target |-> "get", case |-> "no-result"], [api |-> "get", target |-> "get", case |-> "no-message"],
